@@ -178,3 +178,11 @@ package invocation
 //@   inline
 //@   requires t != nil && len(dlgs) == len(t.proof) && forall i int :: 0 <= i && i < len(dlgs) ==> dlgs[i] != nil
 //@   assigns [C20] nothing
+//@
+//@ // ---- C10: well-formedness ------------------------------------------------------------------------
+//@ pure func wfInv(t *Token) bool = didDefined(t.issuer) && didDefined(t.subject) && len(t.nonce) >= 12
+//@
+//@ func (*Token).validate
+//@   requires t != nil
+//@   ensures [C10] wf: (result == nil) == wfInv(t)
+//@   assigns [C20] nothing
